@@ -33,18 +33,36 @@ def judge(ctx):
     single_round = (len(infos) == 1 and infos[0]["start"] == 0 and infos[0]["w"] == 1 and r.C["T"] == infos[0]["S"])
     if ok and single_round and want:
         import sweetpea as sp
+        from sweetpea._internal.sampling_strategy import random as RM
         blk2 = ctx.fresh_built().block
+        name = "_RandomGen__are_constraints_violated"
+        orig = RM.RandomGen.__dict__.get(name)
+        rejected = [0]
 
         def call():
             env.seed_library_rngs(D.lib_seed(spec))
-            with env.quiet():
-                return sp.RandomGen.sample(blk2, total + 3)
+            if orig is not None:
+                fn = orig.__func__ if isinstance(orig, staticmethod) else orig
+
+                def counting(*a, **k):
+                    r = fn(*a, **k)
+                    if r:
+                        rejected[0] += 1
+                    return r
+                setattr(RM.RandomGen, name, staticmethod(counting))
+            try:
+                with env.quiet():
+                    return sp.RandomGen.sample(blk2, total + 3)
+            finally:
+                if orig is not None:
+                    setattr(RM.RandomGen, name, orig)
         res = ctx.lib_call("RandomGen.sample", call)
         m = res.metrics or {}
-        if not needs_rejection(ctx) and "solution_count" in m:
+        # "designs that need no rejection step": structurally none expected AND none observed while exhausting
+        if orig is not None and not needs_rejection(ctx) and rejected[0] == 0 and "solution_count" in m:
             ctx.label("count-checked")
             if m["solution_count"] != total:
-                ctx.fail("reported-count", "metrics['solution_count'] = %r, the design has %d valid sequences (no rejection happened)"
+                ctx.fail("reported-count", "metrics['solution_count'] = %r, the design has %d valid sequences (no candidate was rejected)"
                          % (m["solution_count"], total))
         else:
             ctx.label("count-not-checked:rejections")
